@@ -58,15 +58,22 @@ func waitResult(err error) string {
 	return "err"
 }
 
-// guarded runs f in a goroutine and reports whether it returned within the guard timeout.
+// guarded runs f in a goroutine and reports whether it returned within the guard timeout.  A panic of f is
+// re-raised in the caller's goroutine (where the interpreter recovers it and reports it).
 func guarded(f func()) bool {
 	done := make(chan struct{})
+	var pv any
 	go func() {
 		defer close(done)
+		defer func() { pv = recover() }()
 		f()
 	}()
 	select {
 	case <-done:
+		if pv != nil {
+			panic(pv)
+		}
+
 		return true
 	case <-time.After(guardWait):
 		return false
